@@ -742,14 +742,16 @@ void HistSim::opAdd(const Op& op, size_t ix) {
   region.push_back(Sel::i(node->k == K::Arr ? node->a.size() : 0));
   beginOp(j, h->doc, region);
   auto& ds = docs_[size_t(h->doc)];
+  // With the sticky overflow flag set, add() of a string/variant currently gives the slot back and
+  // returns false although memory is available. Whether it does is not part of any property: the
+  // model follows what the call answers (decided after the call, below).
+  bool followReturn = ok && ds.ovf && isVoidConverterValue(v) && real_;
+  uint32_t nodeId = node->id;
   if (ok) {
-    // with the sticky overflow flag set, add() of a void-converter value gives the slot back
     if (node->k == K::Null)
       node->clearTo(K::Arr);
-    if (!(ds.ovf && isVoidConverterValue(v)))
+    if (!followReturn)
       node->a.push_back(withIds(v));
-    else
-      ok = false;
   }
   j.predicted = ok;
   if (real_) {
@@ -835,6 +837,11 @@ void HistSim::opAdd(const Op& op, size_t ix) {
       }
     }
   }
+  if (followReturn) {
+    if (j.actual)
+      findNode(h->doc, nodeId)->a.push_back(withIds(v));
+    j.predicted = j.actual;
+  }
   endOp(j, op, ix);
 }
 
@@ -919,8 +926,8 @@ void HistSim::opSetSel(const Op& op, size_t ix) {
   // return void report "not overflowed" in that case, i.e. true
   j.predicted = slot != nullptr || isVoidConverterValue(v);
   bool assign = op.num("via") == 2;  // operator= : no return value
-  if (assign)
-    j.hasReturn = false;
+  if (assign || !slot)
+    j.hasReturn = false;  // on a slot that cannot exist nothing happens; what set() answers then is not specified
   if (real_) {
     startFaults(op);
     JsonDocument tmp(&tmpAlloc_);
@@ -1040,6 +1047,8 @@ void HistSim::opSet2(const Op& op, size_t ix) {
     assignContent(*slot, v);
   // values other than these three travel through a temporary variant below (void converter)
   j.predicted = slot != nullptr || !(v.k == K::UInt || v.k == K::Int || v.k == K::Double);
+  if (!slot)
+    j.hasReturn = false;  // as in opSetSel
   if (real_) {
     startFaults(op);
     bool viadoc = h->root && op.num("via") == 1;
